@@ -328,7 +328,10 @@ def _op_mrobust(ctx, op, state):
         # second split: the smooth part is fitted per atom with Gaussians whose exponents the caller supplies - here the
         # exponents that are actually in the density (and one that is not), so the fit recovers it and the numerical
         # residual is small.  (With the default basis the fit on a molecule is ill-conditioned on the unchanged tree.)
-        extra = {"split2": True, "alphas_basis": sorted({float(t[2]) for t in smooth} | {2.7})}
+        basis = sorted({float(t[2]) for t in smooth} | {2.7})
+        # (the order in which the caller lists its exponents is arbitrary: ascending, descending, any; list or ndarray)
+        basis = (basis, basis[::-1], list(np.random.RandomState(bseed).permutation(basis)))[bseed % 3]
+        extra = {"split2": True, "alphas_basis": np.array(basis) if (bseed // 3) % 2 else [float(b) for b in basis]}
         ctx.probes.hit("multi-centre-robust-solve-with-second-split")
     rkey = ("mrobust", kind, gb)
     if rkey not in state["rho"]:
@@ -613,6 +616,12 @@ def _op_robust(ctx, op, state):
         # (with split2 the residual is what is left after the NNLS fit, whose charge the caller does not know)
         kw["boundary"] = float(sum(t[1] for t in smooth if t[0] == "s") * np.sqrt(4 * np.pi))
     kw.update(gopts)  # forwarded to solve_poisson_bvp through **bvp_kwargs, same options as the plain solves of the run
+    if o.get("split2") and o.get("basis"):
+        # the caller's own exponents for the second split, in the caller's own order (ascending, descending, any)
+        basis = sorted({float(t[2]) for t in smooth if t[0] == "s"} | {0.35, 6.0})
+        basis = (basis, basis[::-1], list(np.random.RandomState(bseed).permutation(basis)))[bseed % 3]
+        kw["alphas_basis"] = np.array(basis) if (bseed // 3) % 2 else [float(b) for b in basis]
+        ctx.probes.hit("second-split-with-callers-exponents")
     holder = {}
 
     def call_robust():
@@ -640,7 +649,7 @@ def _op_robust(ctx, op, state):
             ctx.violate("exact-core", "robust", sig, f"robust solver on its own fitted core model of Z={z} off by {err:.3g} (> {CORE_BOUND}); draw {beh}:{bseed}")
     elif err > _acc_bound(ctx):
         ctx.violate("accuracy", "robust", sig, f"robust potential off by {err:.3g}")
-    rk = ("robust", kind, z, bool(o.get("split2")))
+    rk = ("robust", kind, z, bool(o.get("split2")), bool(o.get("split2") and o.get("basis")))
     prev = state["results"].get(rk)
     if prev is not None:
         sp = float(np.max(np.abs(prev - v))) / scale
@@ -885,7 +894,7 @@ class PoissonSeamEngine:
                 ops.append(["laplacian", rng.choice(["rho1", "rho2", "combo"])])
             elif u < 0.80:
                 ops.append(["robust", rng.choice(["core", "core", "core+smooth"]), rng.choice(ROBUST_ELEMENTS), rng.choice(BEHAVIOURS), rng.randrange(1000),
-                            {"shared_params": rng.random() < 0.7, "split2": rng.random() < 0.15}])
+                            {"shared_params": rng.random() < 0.7, "split2": rng.random() < 0.25, "basis": rng.random() < 0.6}])
             elif u < 0.84:
                 ops.append(["tweak_params", rng.choice(ROBUST_ELEMENTS)])
             elif u < 0.89:
